@@ -41,6 +41,10 @@ type c19Case struct {
 	SchedSeed  uint64            `json:"sched_seed"`
 	TickSwitch int               `json:"tick_switch"`
 	PrintMix   bool              `json:"print_mix,omitempty"`
+	// Splice (k1): per scenario, statements spliced into its first text before
+	// loading (lexical errors, rejected statements): error paths of the lexer,
+	// parser and AST builder run in parallel too.
+	Splice []string `json:"splice,omitempty"`
 }
 
 type c19Driver struct{}
@@ -91,6 +95,19 @@ func (c19Driver) Generate(t *tape.Tape, tier string) core.Case {
 		for i := 0; i < n; i++ {
 			g := model.Generate(t.Sub(fmt.Sprintf("scenario%d", i)), profC19(t.Sub("profile")))
 			c.Scenarios = append(c.Scenarios, g.S)
+		}
+		if st := t.Sub("splice"); st.Chance(1, 4) {
+			lexical := []string{c18Raws[6], c18Raws[7], c18Raws[8], "  leaf zq { type string; description 'unterminated; }\n", "  /* unterminated comment\n"}
+			for range c.Scenarios {
+				switch st.Intn(3) {
+				case 0:
+					c.Splice = append(c.Splice, lexical[st.Intn(len(lexical))])
+				case 1:
+					c.Splice = append(c.Splice, c18Raws[st.Intn(len(c18Raws))])
+				default:
+					c.Splice = append(c.Splice, genSoup(st))
+				}
+			}
 		}
 		return c
 	}
@@ -197,14 +214,38 @@ func (c19Driver) Decode(b []byte) (core.Case, error) {
 
 // loadAndProcess builds a processed Modules from a scenario (Parse only).
 func loadAndProcess(s *model.Scenario) (*yang.Modules, []error) {
+	return loadAndProcessSpliced(s, "")
+}
+
+// loadAndProcessSpliced is loadAndProcess with statements spliced into the
+// first text; a text that is rejected does not end the pipeline (its error is
+// kept, the other texts are loaded and processed).
+func loadAndProcessSpliced(s *model.Scenario, splice string) (*yang.Modules, []error) {
 	texts := model.RenderAll(s)
-	ms := yang.NewModules()
-	for _, n := range sortedNames(texts) {
-		if err := ms.Parse(texts[n], n); err != nil {
-			return ms, []error{err}
+	names := sortedNames(texts)
+	if splice != "" && len(names) > 0 {
+		if d, ok := derive(texts, badSpec{From: names[0], Kind: "raw", Raw: splice}); ok {
+			texts[names[0]] = d
 		}
 	}
-	return ms, ms.Process()
+	ms := yang.NewModules()
+	var errs []error
+	for _, n := range names {
+		if err := ms.Parse(texts[n], n); err != nil {
+			if splice == "" {
+				return ms, []error{err}
+			}
+			errs = append(errs, err)
+		}
+	}
+	return ms, append(errs, ms.Process()...)
+}
+
+func spliceOf(c *c19Case, i int) string {
+	if i < len(c.Splice) {
+		return c.Splice[i]
+	}
+	return ""
 }
 
 func fullOutcome(ms *yang.Modules, errs []error) string {
@@ -334,7 +375,7 @@ func (c19Driver) Run(cc core.Case) core.Outcome {
 	o.Key = tape.Hash64(core.MarshalCase(c))
 	maporder.InstallSortedStateless()
 	defer maporder.Uninstall()
-	zzsim.FS = fsim.New(nil)
+	zzsim.FS = fsim.Empty{} // stateless: tasks share it
 	defer func() { zzsim.FS = nil }()
 	cfg := sched.Config{Seed: c.SchedSeed, TickSwitch: c.TickSwitch, MaxSteps: 400_000_000}
 	zzsim.Ticks, zzsim.TickBudget, zzsim.MaxDepth = 0, 0, 0
@@ -348,7 +389,7 @@ func (c19Driver) Run(cc core.Case) core.Outcome {
 		for i := range c.Scenarios {
 			i := i
 			tasks[i] = func() {
-				ms, errs := loadAndProcess(c.Scenarios[i])
+				ms, errs := loadAndProcessSpliced(c.Scenarios[i], spliceOf(c, i))
 				got[i] = fullOutcome(ms, errs)
 			}
 		}
@@ -359,8 +400,11 @@ func (c19Driver) Run(cc core.Case) core.Outcome {
 		// that process-wide state is as cold as the process for the tasks.
 		want := make([]string, len(c.Scenarios))
 		for i, s := range c.Scenarios {
-			ms, errs := loadAndProcess(s)
+			ms, errs := loadAndProcessSpliced(s, spliceOf(c, i))
 			want[i] = fullOutcome(ms, errs)
+		}
+		if len(c.Splice) > 0 {
+			o.Count("probe.k1_with_rejected_texts", 1)
 		}
 		for i := range got {
 			if got[i] != want[i] {
@@ -499,6 +543,9 @@ func (c19Driver) Shrink(cc core.Case) []core.Case {
 		for i := range c.Scenarios {
 			n := clone()
 			n.Scenarios = append(n.Scenarios[:i], n.Scenarios[i+1:]...)
+			if i < len(n.Splice) {
+				n.Splice = append(n.Splice[:i], n.Splice[i+1:]...)
+			}
 			out = append(out, n)
 		}
 	}
